@@ -19,7 +19,7 @@ def read_block_obls(prefix, quick=(0, 1, 3), thorough=(6, 9)):
 
 def who_verifies_obls(prefix):
     return [Obl("%s.table-open-who-verifies" % prefix, "C11/who_verifies.c",
-                real=["util/options.c", "util/comparator.c", "util/slice.c", "util/buffer.c"], include_real=["table/table.c"],
+                real=["util/options.c", "util/comparator.c"], include_real=["table/table.c"],
                 kit=["vp_nondet.c", "vp_mem.c", "vp_alloc.c"], unwind=6, unwindset={"ldb_realloc.0": 25},
                 timeout=600, functions=["ldb_table_open", "ldb_table_read_meta", "ldb_table_read_filter"],
                 desc="real ldb_table_open/read_meta/read_filter: with paranoid_checks every block read while opening (index, metaindex, filter) asks for checksum verification",
